@@ -302,6 +302,9 @@ func genHQSeen(r *Rng, i int, tier string) string {
 	multi := r.Chance(10)
 	pool, nAbs := genPool(r, multi, 70)
 	n := 1 + r.Intn(4)
+	if tier == "thorough" && r.Chance(30) {
+		n += 3 + r.Intn(6)
+	}
 	mal := r.Chance(10)
 	var steps []hqStep
 	for k := 0; k < n; k++ {
